@@ -1,0 +1,11 @@
+//go:build !verif
+
+package starlark
+
+// Verification hooks (see verif_on.go); with the verif build tag off they are
+// empty and inlined away.
+
+func vIter(delta int, obj any)                      {}
+func vFreeze(obj any)                               {}
+func vFrame(thread *Thread, delta int)              {}
+func vStep(thread *Thread, fn *Function, pc uint32) {}
